@@ -3,13 +3,15 @@
 #     Resp pass_msg(1: Msg m) throws (1: SvcError err),
 #     void check(1: i32 n) throws (1: SvcError err),
 #     i32 add(1: i32 a, 2: i32 b),
-#     oneway void fire(1: string s)
+#     oneway void fire(1: string s),
+#     Resp fetch(1: string key) throws (1: SvcError err, 2: AuthError denied),
+#     void touch(1: string key) throws (1: AuthError denied)
 #   }
 #
 from thrift.Thrift import TType, TProcessor
 from thrift.protocol.TBase import TBase
 from . import VBase, _proc
-from .ttypes import Msg, Resp, SvcError
+from .ttypes import Msg, Resp, SvcError, AuthError
 
 
 class Iface(VBase.Iface):
@@ -23,6 +25,12 @@ class Iface(VBase.Iface):
     pass
 
   def fire(self, s):
+    pass
+
+  def fetch(self, key):
+    pass
+
+  def touch(self, key):
     pass
 
 
@@ -101,6 +109,52 @@ class fire_args(TBase):
 fire_args.thrift_spec = (None, (1, TType.STRING, 's', 'UTF8', None,),)
 
 
+class fetch_args(TBase):
+  __slots__ = ('key',)
+
+  def __init__(self, key=None):
+    self.key = key
+
+
+fetch_args.thrift_spec = (None, (1, TType.STRING, 'key', 'UTF8', None,),)
+
+
+class fetch_result(TBase):
+  __slots__ = ('success', 'err', 'denied')
+
+  def __init__(self, success=None, err=None, denied=None):
+    self.success = success
+    self.err = err
+    self.denied = denied
+
+
+fetch_result.thrift_spec = (
+  (0, TType.STRUCT, 'success', [Resp, None], None,),
+  (1, TType.STRUCT, 'err', [SvcError, None], None,),
+  (2, TType.STRUCT, 'denied', [AuthError, None], None,),
+)
+
+
+class touch_args(TBase):
+  __slots__ = ('key',)
+
+  def __init__(self, key=None):
+    self.key = key
+
+
+touch_args.thrift_spec = (None, (1, TType.STRING, 'key', 'UTF8', None,),)
+
+
+class touch_result(TBase):
+  __slots__ = ('denied',)
+
+  def __init__(self, denied=None):
+    self.denied = denied
+
+
+touch_result.thrift_spec = (None, (1, TType.STRUCT, 'denied', [AuthError, None], None,),)
+
+
 class Processor(VBase.Processor, Iface, TProcessor):
   def __init__(self, handler):
     VBase.Processor.__init__(self, handler)
@@ -108,12 +162,17 @@ class Processor(VBase.Processor, Iface, TProcessor):
     self._processMap['check'] = Processor.process_check
     self._processMap['add'] = Processor.process_add
     self._processMap['fire'] = Processor.process_fire
+    self._processMap['fetch'] = Processor.process_fetch
+    self._processMap['touch'] = Processor.process_touch
 
   process_pass_msg = _proc.make_process('pass_msg', pass_msg_args, pass_msg_result, ['m'], exceptions=[('err', SvcError)])
   process_check = _proc.make_process('check', check_args, check_result, ['n'], exceptions=[('err', SvcError)])
   process_add = _proc.make_process('add', add_args, add_result, ['a', 'b'])
   process_fire = _proc.make_process('fire', fire_args, None, ['s'], oneway=True)
+  process_fetch = _proc.make_process('fetch', fetch_args, fetch_result, ['key'], exceptions=[('err', SvcError), ('denied', AuthError)])
+  process_touch = _proc.make_process('touch', touch_args, touch_result, ['key'], exceptions=[('denied', AuthError)])
 
 
 from thrift.TRecursive import fix_spec
-fix_spec([pass_msg_args, pass_msg_result, check_args, check_result, add_args, add_result, fire_args])
+fix_spec([pass_msg_args, pass_msg_result, check_args, check_result, add_args, add_result, fire_args,
+          fetch_args, fetch_result, touch_args, touch_result])
